@@ -261,6 +261,9 @@ func cmdProp(args []string) int {
 			obls = append(obls, o)
 		}
 	}
+	for _, sc := range ps.Syntactic {
+		obls = append(obls, w.SyntChecks(sc)...)
+	}
 	// the word-level memory axioms used by every VC are proved from their byte-level definitions
 	obls = append(obls, MemLemmas()...)
 	// vacuity guard: each function's assumption set must not be refutable
